@@ -1,14 +1,16 @@
 (* Driver for the C02 correspondence: runs the encoder model (codec operation scripts) and the
    sequencing model (event schedules) and renders every observable canonically. *)
 From Coq Require Import String.
-From AV Require Import Lib.Base Lib.V H1.Encoder H1.RespSpec H1.RespSeq.
+From AV Require Import Lib.Base Lib.V H1.Encoder H1.RespSpec H1.RespSeq H1.Flush H1.RespWire H1.UpgradeSeq.
 Open Scope N_scope.
 
 Inductive eop := EDecode (r : reqctx) | EItem (r : resp) (sz : bsize) | EChunk (b : bytes) | EEof.
 
 Inductive case :=
 | CEnc (ka : bool) (ops : list eop)
-| CConn (ka : bool) (wbs : N) (reqs : list reqctx) (hs : list hscript) (sched : list event).
+| CConn (ka : bool) (wbs : N) (reqs : list reqctx) (hs : list hscript) (sched : list event)
+(* an upgrade service is configured; the last element of [reqs] is the upgrade request *)
+| CUpg (ka : bool) (wbs : N) (reqs : list reqctx) (hs : list hscript) (marker : bytes) (sched : list uevent).
 
 (* ---- canonical units (as the harness's `units`) *)
 Fixpoint bytes_leb (a b : bytes) : bool :=
@@ -109,8 +111,28 @@ Definition run_conn (ka : bool) (wbs : N) (reqs : list reqctx) (hs : list hscrip
              VL (map VNat (d_started d));
              VN (match d_fail d with None => 0 | Some FBody => 1 | Some FIo => 2 end)].
 
+(* ---- upgrade hand-off: the dispatcher's units, then what the upgrade service sends through
+   the Framed it was handed (101 head encoded with the handed codec, raw marker) *)
+Definition run_upg (ka : bool) (wbs : N) (reqs : list reqctx) (hs : list hscript) (marker : bytes)
+           (sched : list uevent) : V :=
+  let u := urun reqs hs wbs (uinit ka) sched in
+  let d := w_d (u_w u) in
+  let acc := lenN (s_wire (w_f (u_w u))) in
+  let base := map cunit_of (d_out d) in
+  let res := VN (match d_fail d with None => 0 | Some FBody => 1 | Some FIo => 2 end) in
+  match u_ho u with
+  | None =>
+      VT "upg" [VL (render_units base acc []); VL (map VNat (d_started d)); res; VT "noho" []]
+  | Some h =>
+      VT "upg" [VL (render_units (base ++ [CH (upg_head h); CD marker]) (acc + ho_after h) []);
+                VL (map VNat (d_started d)); res;
+                VT "ho" [VNat (ho_req h); VN (lenN (p_write_buf (ho_parts h)));
+                         VBytes (p_read_buf (ho_parts h)); VN acc]]
+  end.
+
 Definition run_C02 (c : case) : V :=
   match c with
   | CEnc ka ops => run_enc ka ops
   | CConn ka wbs reqs hs sched => run_conn ka wbs reqs hs sched
+  | CUpg ka wbs reqs hs marker sched => run_upg ka wbs reqs hs marker sched
   end.
